@@ -646,7 +646,10 @@ class Interp(object):
             if isinstance(x, bool):
                 return P.const(int(x), "int")
             if is_num(x):
-                return P.const(qof(x), T.kind_of_const(x))
+                p_ = P.const(qof(x), T.kind_of_const(x))
+                if isinstance(x, Num) and x.kind == "dec" and getattr(x, "text", None) is not None:
+                    p_.dec_text = x.text  # spelling of a Decimal literal: decides how str() prints it
+                return p_
             if x is NAN:
                 return P.atom(v, "flt")
             if x is None and st is not None:
